@@ -89,7 +89,7 @@ package flyt
 //@   ensures [C02] !isBatch(node) && ph >= 2 && !sawCancel ==> (nFb == 1 <==> hasFallback(node) && attErr != nil && nExec == budget(node))
 //@   ensures [C02] !isBatch(node) && ph >= 2 && !sawCancel && attErr == nil ==> nFb == 0 && lastErr == nil
 //@   ensures [C04] !isBatch(node) && perr != nil ==> err != nil && Is(err, perr) && nExec == 0 && nPost == 0
-//@   ensures [C04] !isBatch(node) && (ph == 2 || ph == 3) && !sawCancel ==> err != nil && Is(err, lastErr) && nPost == 0
+//@   ensures [C04|C02] !isBatch(node) && (ph == 2 || ph == 3) && !sawCancel ==> err != nil && Is(err, lastErr) && nPost == 0
 //@   ensures [C04] !isBatch(node) && ph == 4 && postErr != nil ==> err != nil && Is(err, postErr)
 //@   ensures [C05,C20] !isBatch(node) && sawCancel ==> err != nil && Is(err, ctxErr(ctx))
 //@   ensures [C05] !isBatch(node) && cancelled@entry ==> callbacks == callbacks@entry && err != nil && Is(err, ctxErr(ctx))
@@ -110,7 +110,7 @@ package flyt
 //@   requires okNode(start)
 //@   havoc user
 //@   ensures [C03|C10] fresh(f) && f.start == start && flowRep(f)
-//@   ensures [C19] f.BaseNode != nil && baseDefaults(f.BaseNode)
+//@   ensures [C19|C10] f.BaseNode != nil && baseDefaults(f.BaseNode) && fresh(f.BaseNode)
 //@   ensures [C03|C10] forall n Node :: !has(f.transitions, n)
 
 //@ func (*Flow).Connect(f, from, action, to) (r)
@@ -153,11 +153,12 @@ package flyt
 //@   loop 1 candidate !cancelled
 //@   loop 1 candidate cur != nil
 //@   ensures [C03] err == nil ==> cur == nil && visits >= 1
-//@   ensures [C10] err == nil ==> res == box(last, Action)
+//@   ensures [C10|C03] err == nil ==> res == box(last, Action)
 //@   ensures [C04] failed ==> err == childErr && err != nil
 //@   ensures [C04] err == nil ==> !failed && isType(prepResult, *SharedStore) && f.start != nil
 //@   ensures [C05] sawCancel ==> err != nil && Is(err, ctxErr(ctx))
 //@   ensures [C05] cancelled@entry ==> callbacks == callbacks@entry && err != nil
+//@   ensures [C04,C10] err != nil && !failed && visits >= 1 ==> cur != nil
 
 //@ func (*Flow).Post(f, ctx, shared, prepResult, execResult) (a, err)
 //@   ensures [C10] err == nil && (isType(execResult, Action) ==> a == execResult.(Action))
@@ -226,7 +227,7 @@ package flyt
 // documented defaults: one attempt, no wait, sequential batches, continue on errors ("" reads as "continue")
 //@ spec func baseDefaults(n *BaseNode) bool = n.maxRetries == 1 && n.wait == 0 && n.batchConcurrency == 0 && n.batchErrorHandling == ""
 //@ func NewBaseNode(opts) (n)
-//@   widen [C02,C07,C08,C09,C17,C20]
+//@   widen [C02,C07,C08,C09,C10,C17,C20]
 //@   requires forall i int :: 0 <= i && i < len(opts) ==> opts[i] != nil
 //@   havoc user
 //@   ghost k int = 0
@@ -572,12 +573,13 @@ package flyt
 //@   ensures [C14] fresh(s) && fresh(s.data) && (forall k string :: !has(s.data, k)) && len(s.data) == 0
 
 //@ func (*SharedStore).Get(s, key) (val, ok)
+//@   widen [C13]
 //@   requires s != nil
 //@   ensures [C14,C15,C16] ok == has(s.data, key) && val == (has(s.data, key) ? s.data[key] : nil)
 //@   ensures [C13] sections == 1
 
 //@ func (*SharedStore).Set(s, key, value) ()
-//@   widen [C15,C16]
+//@   widen [C13,C15,C16]
 //@   requires s != nil && s.data != nil
 //@   assigns [C14] contents(s.data)
 //@   ensures [C14] s.data == old(s.data) && dom(s.data) == upd(old(dom(s.data)), key, true)
@@ -586,11 +588,13 @@ package flyt
 //@   ensures [C13] sections == 1
 
 //@ func (*SharedStore).Has(s, key) (ok)
+//@   widen [C13]
 //@   requires s != nil
 //@   ensures [C14] ok == has(s.data, key)
 //@   ensures [C13] sections == 1
 
 //@ func (*SharedStore).Delete(s, key) ()
+//@   widen [C13]
 //@   requires s != nil
 //@   assigns [C14] contents(s.data)
 //@   ensures [C14] s.data == old(s.data) && (s.data != nil ==> dom(s.data) == upd(old(dom(s.data)), key, false))
@@ -599,11 +603,13 @@ package flyt
 //@   ensures [C13] sections == 1
 
 //@ func (*SharedStore).Len(s) (n)
+//@   widen [C13]
 //@   requires s != nil
 //@   ensures [C14] n == len(s.data)
 //@   ensures [C13] sections == 1
 
 //@ func (*SharedStore).Clear(s) ()
+//@   widen [C13]
 //@   requires s != nil
 //@   assigns [C14] s.data
 //@   havoc alloc
@@ -611,6 +617,7 @@ package flyt
 //@   ensures [C13] sections == 1
 
 //@ func (*SharedStore).GetAll(s) (res)
+//@   widen [C13]
 //@   requires s != nil
 //@   havoc alloc
 //@   loop 1 invariant [C14] dom(made(map[string]any, 1)) == visited(1)
@@ -620,6 +627,7 @@ package flyt
 //@   ensures [C13] sections == 1
 
 //@ func (*SharedStore).Merge(s, data) ()
+//@   widen [C13]
 //@   requires s != nil && s.data != nil && data != s.data
 //@   assigns [C14] contents(s.data)
 //@   loop 1 invariant [C14] dom(data) == old(dom(data)) && vals(data) == old(vals(data))
@@ -632,6 +640,7 @@ package flyt
 //@   ensures [C13] sections <= 1 && (data != nil ==> sections == 1)
 
 //@ func (*SharedStore).Keys(s) (res)
+//@   widen [C13]
 //@   requires s != nil
 //@   havoc alloc
 //@   ghost acc []string = slice(0, 0, 0, 0); n int = 0
@@ -961,11 +970,11 @@ package flyt
 //@   loop 1 step i++
 //@   loop 1 invariant 0 <= i && i <= len(items) && !stopped
 //@   loop 1 invariant forall j int :: (j >= i ==> cnt[j] == 0) && (0 <= j && j < i ==> cnt[j] == 0 || cnt[j] == 1)
-//@   loop 1 invariant [C06] forall j int :: 0 <= j && j < i && cnt[j] == 1 ==> results[j] == slotOf(outV[j], outE[j])
+//@   loop 1 invariant [C06,C09] forall j int :: 0 <= j && j < i && cnt[j] == 1 ==> results[j] == slotOf(outV[j], outE[j])
 //@   loop 1 invariant [C09,C11] forall j int :: 0 <= j && j < i && cnt[j] == 0 ==> results[j].err != nil
 //@   loop 1 invariant [C07] !cancelled ==> (forall j int :: 0 <= j && j < i ==> cnt[j] == 1)
 //@   loop 1 decreases len(items) - i
-//@   ensures [C06] forall j int :: 0 <= j && j < len(items) && cnt[j] == 1 ==> results[j] == slotOf(outV[j], outE[j])
+//@   ensures [C06|C09] forall j int :: 0 <= j && j < len(items) && cnt[j] == 1 ==> results[j] == slotOf(outV[j], outE[j])
 //@   ensures [C07] forall j int :: 0 <= j && j < len(items) ==> cnt[j] == 0 || cnt[j] == 1
 //@   ensures [C07] errorHandling != "stop" && !cancelled ==> (forall j int :: 0 <= j && j < len(items) ==> cnt[j] == 1)
 //@   ensures [C09,C11] forall j int :: 0 <= j && j < len(items) && cnt[j] == 0 ==> results[j].err != nil
@@ -1121,9 +1130,10 @@ package flyt
 //@     requires [C02,C06,C07] cnt == 0 && c == *ctx && n == *node && it == *itm
 //@     requires [C09] !(old(*shouldStop) && *errorHandling == "stop")
 //@     requires [C11] !cancelled
+//@     requires [C08] held(mu) == 0
 //@     effect cnt = 1; ov = v; oe = e
 //@   ensures [C06,C07] forall k int :: k != soff(*results) + *idx ==> raw(*results, k) == old(raw(*results, k))
-//@   ensures [C06,C07] cnt == 1 ==> (*results)[*idx] == slotOf(ov, oe)
+//@   ensures [C06,C07|C09] cnt == 1 ==> (*results)[*idx] == slotOf(ov, oe)
 //@   ensures [C07] cnt == 0 ==> old(cancelled) || cancelled || (old(*shouldStop) && *errorHandling == "stop")
 //@   ensures [C09,C11] cnt == 0 ==> (*results)[*idx].err != nil
 //@   ensures [C09] cnt == 1 && oe != nil && *errorHandling == "stop" ==> *shouldStop
